@@ -233,6 +233,25 @@ func (n *Net) Events(now time.Time, add func(sim.Event)) {
 	}
 }
 
+// sendThreshold is how much room a blocked writer waits for before it puts
+// more of its buffer on the wire: the rest of the write or one full segment,
+// whichever is less (sender-side silly-window avoidance, as TCP does; without
+// it a full send buffer fragments a long stream into ever smaller pieces, one
+// per read of the peer).
+func (p *Pipe) sendThreshold(remaining int) int {
+	need := remaining
+	if need > 1448 {
+		need = 1448
+	}
+	if need > p.SndBuf {
+		need = p.SndBuf
+	}
+	if need < 1 {
+		need = 1
+	}
+	return need
+}
+
 func (p *Pipe) nextFaultOffset() (int64, *Fault) {
 	var best *Fault
 	for _, f := range p.faults {
@@ -258,11 +277,17 @@ func (p *Pipe) deliver() {
 	}
 	now := time.Now()
 	avail := 0
-	for _, sg := range p.inflight {
-		if sg.readyAt.After(now) {
-			break
+	if !p.inflight[len(p.inflight)-1].readyAt.After(now) {
+		// everything in flight is ready (readyAt is monotone): no need to walk
+		// a list that a lazy pipe may have let grow to tens of thousands
+		avail = p.inBytes
+	} else {
+		for _, sg := range p.inflight {
+			if sg.readyAt.After(now) {
+				break
+			}
+			avail += len(sg.data)
 		}
-		avail += len(sg.data)
 	}
 	if avail == 0 {
 		return
@@ -519,7 +544,7 @@ func (c *Conn) Write(b []byte) (int, error) {
 			done = true
 		default:
 			space := p.SndBuf - p.inBytes - len(p.readable)
-			if space > 0 {
+			if space >= p.sendThreshold(len(b)-total) {
 				k := len(b) - total
 				if k > space {
 					k = space
@@ -567,7 +592,7 @@ func (c *Conn) Write(b []byte) (int, error) {
 		}
 		if total < len(b) {
 			space := p.SndBuf - p.inBytes - len(p.readable)
-			if space > 0 {
+			if space >= p.sendThreshold(len(b)-total) {
 				s.Unlock()
 				continue
 			}
